@@ -1,5 +1,5 @@
 (* C04 model driver.
-     T <k> <r> <w> <op>...   the access trace the model prescribes for the ops run one after the other
+     T <k>[/<req>] <r> <w> <op>...   the access trace the model prescribes for the ops run one after the other
                              (solo schedule, newest values) on a ring brought to heads (r, w) through the model's
                              own write/read calls;  M = results || trace,  S = results of a plain byte queue
      X ...                   schedule-search cases: M = S = "ok" (the oracle runs in the C driver) *)
@@ -127,6 +127,8 @@ let () =
   iter_lines (fun line ->
     match split_ws line with
     | "T" :: k :: r :: w :: ops ->
+      (* "k" or "k/requested size": the model only knows the rounded size 2^k *)
+      let k = List.hd (String.split_on_char '/' k) in
       trace_case (int_of_string k) (int_of_string r) (int_of_string w) (List.map parse_op ops)
     | "X" :: _ -> Printf.printf "M ok\nS ok\n"
     | _ -> Printf.printf "M ?\nS ?\n")
